@@ -1826,9 +1826,13 @@ class Tensor:
         #
         # Create new shape list
         #
-        shape = copy.deepcopy(self.getShape())
+        # Note: an estimated shape (a guess from the coordinates that
+        # happen to be present) cannot be unflattened, so the new tensor
+        # then estimates its shape itself
+        #
+        shape = copy.deepcopy(self.getShape(authoritative=True))
 
-        for d in range(levels):
+        for d in range(levels if shape is not None else 0):
             s = shape[depth + d]
             shape[depth + d] = s[0]
             if len(s) == 2:
